@@ -180,9 +180,12 @@ var c05Kinds = []c05Kind{
 		// fields of a parameter list: go/printer decides line breaks from the end line of the
 		// previous field and the start line of the next
 		tmpl: func(n int) string {
+			// parameter types that end in different tokens (identifier, bare result of a func type,
+			// bracket, brace, parenthesised results, ellipsis)
+			types := []string{"int", "func(int) error", "[]string", "struct{}", "func() (int, error)", "map[string]int", "interface{}", "*T", "chan<- int"}
 			s := "package p\n\nfunc f(\n"
-			for _, e := range names(n) {
-				s += "\t" + e + " int,\n"
+			for i, e := range names(n) {
+				s += "\t" + e + " " + types[(i+n)%len(types)] + ",\n"
 			}
 			return s + ") {\n}\n"
 		},
@@ -196,9 +199,10 @@ var c05Kinds = []c05Kind{
 		openDecs: func(f *dst.File) *dst.Decorations { return &f.Decls[0].(*dst.FuncDecl).Type.Params.Decs.Opening }},
 	{name: "results", edges: false, exprList: true,
 		tmpl: func(n int) string {
+			types := []string{"func(int) error", "int", "struct{}", "[]string", "func() (int, error)", "*T"}
 			s := "package p\n\nfunc f() (\n"
-			for _, e := range names(n) {
-				s += "\t" + e + " int,\n"
+			for i, e := range names(n) {
+				s += "\t" + e + " " + types[(i+n)%len(types)] + ",\n"
 			}
 			return s + ") {\n\treturn\n}\n"
 		},
